@@ -12,6 +12,7 @@ package main
 // approximated.  See docs/TRANSLATOR.md.
 
 import (
+	"regexp"
 	"fmt"
 	"go/ast"
 	"go/constant"
@@ -676,6 +677,15 @@ func (x *xl) expr(e ast.Expr) tx {
 		}
 		return r
 	case *ast.IndexExpr:
+		if _, rd, typ, isPlace := x.place(t.X); isPlace && strings.HasPrefix(typ, "map:") {
+			// m[k] as a value: the entry gives it a meaning (shim "<map type>[k]": one result)
+			sh, has := x.fn.calls[typ+"[k]"]
+			if !has || sh.kind != "ext" || len(sh.res) != 1 {
+				x.fail(e, "map index on %s needs a shim %q of kind ext with one result", typ, typ+"[k]")
+			}
+			k := x.defaulted(t.Index, x.expr(t.Index))
+			return tx{lean: "(.call " + leanStr(sh.f) + " [" + rd + ", " + k.lean + "])", typ: sh.res[0]}
+		}
 		a, i := x.expr(t.X), x.expr(t.Index)
 		if a.typ == "untyped" {
 			a = x.defaulted(t.X, a)
@@ -695,6 +705,17 @@ func (x *xl) expr(e ast.Expr) tx {
 			return c
 		}
 		typ, ok := x.tryType(t.Type)
+		if ok && strings.HasPrefix(typ, "[]") {
+			// []T{a, b, …}: the list of the elements (no keys)
+			var parts []string
+			for _, el := range t.Elts {
+				if _, keyed := el.(*ast.KeyValueExpr); keyed {
+					x.fail(e, "keyed slice literal is outside the subset")
+				}
+				parts = append(parts, x.coerce(el, x.expr(el), typ[2:]).lean)
+			}
+			return tx{lean: "(.call \"tuple\" [" + strings.Join(parts, ", ") + "])", typ: typ}
+		}
 		if !ok || !strings.HasPrefix(typ, "struct:") {
 			x.fail(e, "composite literal of %s is outside the subset", exprString(t.Type))
 		}
@@ -931,11 +952,29 @@ type tcall struct {
 	post      []string // places assigned AFTER the declared results (in-out parameters of a translated callee)
 	traceStmt string   // extstmt with a trace: executed before the call
 	pureTrace bool     // the call touches nothing Go code can read (only the trace and its own results)
+	pureFun   bool     // kind "funpure": a translated callee claimed (and checked) to assign no field
 	recvRd    string   // addret / cas: the receiver as an expression
 	old, new  string   // cas
 }
 
 var pendingCall *tcall
+
+// pureClaims: (callee, caller) pairs of "funpure" shims seen while translating the current table
+var pureClaims [][2]string
+
+var fieldTargetRe = regexp.MustCompile(`\.(assign|callX|call) \[[^\]]*\(\.fld `)
+var funCallRe = regexp.MustCompile(`\(\.call \[`)
+
+// checkPure: a translated body that assigns no field and calls no translated function
+func checkPure(body string) error {
+	if fieldTargetRe.MatchString(body) {
+		return fmt.Errorf("it assigns a field")
+	}
+	if funCallRe.MatchString(body) {
+		return fmt.Errorf("it calls a translated function")
+	}
+	return nil
+}
 
 // callExpr translates a call.  If the call has exactly one value it is returned as an expression; calls that
 // are statements (several results, mutation of the receiver, translated functions) set pendingCall.
@@ -963,7 +1002,7 @@ func (x *xl) callExpr(c *ast.CallExpr) (tx, bool) {
 				if a.typ == "untyped" && a.val.Kind() == constant.String {
 					return tx{typ: "untyped", val: constant.MakeInt64(int64(len(constant.StringVal(a.val))))}, false
 				}
-				if !(a.typ == "string" || a.typ == "bytes" || a.typ == "error" || strings.HasPrefix(a.typ, "[]")) {
+				if !(a.typ == "string" || a.typ == "bytes" || a.typ == "error" || strings.HasPrefix(a.typ, "[]") || strings.HasPrefix(a.typ, "map:")) {
 					x.fail(c, "len of %s", a.typ)
 				}
 				if a.typ == "error" {
@@ -1331,12 +1370,16 @@ func (x *xl) callExpr(c *ast.CallExpr) (tx, bool) {
 		addArgs()
 		pendingCall = &tcall{ctor: "call", f: sh.f, args: args, res: sh.res}
 		return tx{}, true
-	case "fun":
+	case "fun", "funpure":
 		if !isSelf && !isPkgFn && !isOther {
 			x.fail(c, "translated function %s must be called on the receiver itself", key)
 		}
 		addArgs()
-		pendingCall = &tcall{ctor: "call", f: sh.f, args: args, res: sh.res}
+		pendingCall = &tcall{ctor: "call", f: sh.f, args: args, res: sh.res, pureFun: sh.kind == "funpure"}
+		if sh.kind == "funpure" {
+			// the claim is checked on the callee's generated body when the table is assembled
+			pureClaims = append(pureClaims, [2]string{sh.f, x.fn.name})
+		}
 		return tx{}, true
 	}
 	x.fail(c, "unknown shim kind %q for %s", sh.kind, key)
@@ -1385,6 +1428,45 @@ func (x *xl) closureValue(fl *ast.FuncLit, captured []tvar) tx {
 	parts := []string{"(.lit (.bytes " + leanBytes([]byte(transNodeText(fl))) + ") /- closure: its source text -/)"}
 	for _, v := range captured {
 		parts = append(parts, "(.loc "+leanStr(v.lean)+")")
+	}
+	// the receiver fields the literal mentions are part of the value too (in order of first mention); a mention of an
+	// unmapped field, or of the receiver as a whole without a recvAs mapping, is refused
+	if x.recvVar != "" {
+		seen := map[string]bool{}
+		inSel := map[*ast.Ident]bool{}
+		ast.Inspect(fl.Body, func(n ast.Node) bool {
+			switch t := n.(type) {
+			case *ast.SelectorExpr:
+				if id, ok := t.X.(*ast.Ident); ok && id.Name == x.recvVar {
+					if _, shadow := x.lookup(id.Name); shadow {
+						return true
+					}
+					inSel[id] = true
+					f, ok := x.fn.fields[t.Sel.Name]
+					if !ok {
+						x.fail(fl, "the function literal reads receiver field %s, which is not mapped in the whitelist entry", t.Sel.Name)
+					}
+					if !seen[f.lean] {
+						seen[f.lean] = true
+						parts = append(parts, "(.fld "+leanStr(f.lean)+")")
+					}
+				}
+			case *ast.Ident:
+				if t.Name == x.recvVar && !inSel[t] {
+					if _, shadow := x.lookup(t.Name); shadow {
+						return true
+					}
+					if x.fn.recvAs == nil {
+						x.fail(fl, "the function literal mentions the receiver as a whole, which the whitelist entry does not map")
+					}
+					if !seen[x.fn.recvAs.lean] {
+						seen[x.fn.recvAs.lean] = true
+						parts = append(parts, "(.fld "+leanStr(x.fn.recvAs.lean)+")")
+					}
+				}
+			}
+			return true
+		})
 	}
 	return tx{lean: "(.call \"tuple\" [" + strings.Join(parts, ", ") + "])", typ: "opt:Closure"}
 }
@@ -1615,7 +1697,7 @@ func (x *xl) hoistCall(t *ast.CallExpr, conditional, first bool, out *[]string) 
 	if conditional {
 		x.fail(t, "call %s is evaluated conditionally (right operand of && or ||): it cannot be executed before the statement", exprString(t.Fun))
 	}
-	pure := pc.ctor == "callX" && len(pc.pre) == 0
+	pure := (pc.ctor == "callX" && len(pc.pre) == 0) || pc.pureFun
 	if !pure && !first {
 		x.fail(t, "call %s changes state and is evaluated after a field read or another call", exprString(t.Fun))
 	}
@@ -2547,6 +2629,24 @@ func (x *xl) rangeStmt(t *ast.RangeStmt) string {
 	defer x.pop()
 	xs := x.expr(t.X)
 	var el string
+	if strings.HasPrefix(xs.typ, "map:") {
+		// `for k := range m`: the keys in the order the entry's intrinsic "<map type>.keys" gives them (an arbitrary
+		// parameter: Go's order is unspecified); only the key form is in the subset
+		sh, has := x.fn.calls[xs.typ+".keys"]
+		if !has || sh.kind != "ext" || len(sh.res) != 1 || !strings.HasPrefix(sh.res[0], "[]") {
+			x.fail(t, "range over %s needs a shim %q of kind ext with one slice result", xs.typ, xs.typ+".keys")
+		}
+		if t.Value != nil {
+			x.fail(t, "range over a map with a value variable is outside the subset")
+		}
+		kid, ok := t.Key.(*ast.Ident)
+		if !ok || t.Tok != token.DEFINE || kid.Name == "_" {
+			x.fail(t, "range over a map: only `for k := range m`")
+		}
+		v := x.declare(t, kid.Name, sh.res[0][2:])
+		body := x.scoped(t.Body)
+		return x.namedLoop("(.range .blank (.loc " + leanStr(v.lean) + ") (.call " + leanStr(sh.f) + " [" + xs.lean + "])\n  " + indent(body, 2) + ")")
+	}
 	switch {
 	case xs.typ == "bytes":
 		el = "u8"
@@ -2837,6 +2937,8 @@ func translate(spec transSpec) func() (string, int, error) {
 		sb.WriteString("namespace ZapVerif.Gen." + spec.table + "\nopen ZapVerif.GoMini\n\n")
 		rows := 0
 		var names []string
+		pureClaims = nil
+		bodies := map[string]string{}
 		for i := range spec.funcs {
 			fn := &spec.funcs[i]
 			_, f, err := parseTransFile(fn.file)
@@ -2854,8 +2956,18 @@ func translate(spec transSpec) func() (string, int, error) {
 				return "", 0, fmt.Errorf("%s: %v", fn.name, err)
 			}
 			sb.WriteString(lean)
+			bodies[fn.lean] = lean
 			rows += x.stmts_
 			names = append(names, fn.lean)
+		}
+		for _, cl := range pureClaims {
+			body, ok := bodies[cl[0]]
+			if !ok {
+				return "", 0, fmt.Errorf("%s: funpure callee %s is not in this table", cl[1], cl[0])
+			}
+			if err := checkPure(body); err != nil {
+				return "", 0, fmt.Errorf("%s: the call of %s is placed as if it changed nothing, but %v", cl[1], cl[0], err)
+			}
 		}
 		sb.WriteString("/-- the translated functions of this table by name -/\ndef funs : String → Option Fun\n")
 		for _, n := range names {
